@@ -214,8 +214,14 @@ def _parse_raw_data(region_str):
 
             # NOTE: include=1/0 in metadata overrides the leading
             #       "-/+" symbol; -: include=0;, + or '': include=1
-            include = 0 if include_symbol == '-' else 1
-            include_meta = {'include': include}
+            if include_symbol == '-':
+                include_meta = {'include': 0}
+            elif (include_symbol == '+' or ('include' not in global_meta
+                                            and 'include' not in composite_meta)):
+                include_meta = {'include': 1}
+            else:
+                # no sign: a global (or composite) include=0/1 applies
+                include_meta = {}
 
             params_str, meta_str = _parse_shape_line(shape, original_line,
                                                      match.span())
